@@ -374,3 +374,69 @@ func TestRegression_GroupByOverSeveralStorageNodesProductionPlan(t *testing.T) {
 		})
 	}
 }
+
+// Observation behind cutSpec (no layout dependence, therefore no failure of this property's check): a leaf
+// answers a group-by query with every series of the metric it finds in the data families of the time
+// range, also with series that have no point inside the range (their field data is encoded but empty).
+// The root merges such a group like any other, returns it as a series without fields, and its result
+// limiter counts it: `limit N` then returns fewer than N groups with values - here, with one of three hosts
+// having a point in the range, `limit 1` returns no value at all in about 2 of 3 executions (map order) -
+// although the complete answer has a group with values. It happens on 1 shard / 1 node in the same way as
+// on any other layout. Reported as a known finding when listed, logged otherwise.
+const sigLimitCountsEmptyGroups = "C12/limit-counts-groups-without-values-in-the-time-range"
+
+func TestRegression_LimitCountsGroupsWithoutValuesInTheTimeRange(t *testing.T) {
+	d := &dataset{
+		Metrics: []metricDef{{Name: "cpu", TagKeys: []string{"host"}, Fields: []fieldDef{{"s1", tSum}}}},
+		Series: []seriesDef{
+			{Metric: 0, Tags: map[string]string{"host": "h0"}, Fields: []int{0}},
+			{Metric: 0, Tags: map[string]string{"host": "h1"}, Fields: []int{0}},
+			{Metric: 0, Tags: map[string]string{"host": "h2"}, Fields: []int{0}},
+		},
+		// h0 has a point in slot 0, h1 and h2 only in slot 5 (same data family)
+		Batches: [][]point{{
+			{Series: 0, Slot: 0, Vals: map[int]float64{0: 1}},
+			{Series: 1, Slot: 5, Vals: map[int]float64{0: 2}},
+			{Series: 2, Slot: 5, Vals: map[int]float64{0: 3}},
+		}},
+	}
+	e, ls := fixture(t, d, []string{"root"})
+	q := &querySpec{Metric: 0, Items: []selItem{{Field: "s1"}}, StartS: 0, EndS: 9, GroupBy: []string{"host"}}
+	complete := q.sqlWithLimit(d, completeLimit)
+	rs, err := e.xc.Query("root:1", ls[0].db, complete)
+	if err != nil {
+		t.Fatal(err)
+	}
+	full := node.Canon(rs)
+	if msg := checkReference(full, evalModel(d, q)); msg != "" || len(full) != 1 {
+		t.Fatalf("harness: complete answer\n%s\n%s", msg, full)
+	}
+	series := len(rawKeys(rs))
+	q.Limit = 1
+	sql := q.sql(d)
+	const runs = 60
+	empty := 0
+	for i := 0; i < runs; i++ {
+		rs, err := e.xc.Query("root:1", ls[0].db, sql)
+		if err != nil {
+			t.Fatal(err)
+		}
+		got := node.Canon(rs)
+		if len(rs.Series) != 1 {
+			t.Fatalf("%s: %d series", sql, len(rs.Series))
+		}
+		if len(got) == 0 {
+			empty++
+		} else if !got.Equal(full) {
+			t.Fatalf("%s:\n%sexpected\n%s", sql, got, full)
+		}
+	}
+	what := fmt.Sprintf("%s | complete answer (%s): %d series, 1 with values (host=h0) | %d of %d executions returned a series without values instead of host=h0", sql, complete, series, empty, runs)
+	if series > 1 && empty > 0 {
+		if ev.Known(sigLimitCountsEmptyGroups) {
+			ev.KnownFinding("C12", sigLimitCountsEmptyGroups+": "+what)
+		} else {
+			t.Logf("observation (not a layout dependence): %s", what)
+		}
+	}
+}
